@@ -2,10 +2,10 @@
 boundaries against Python's own binding rules (oracle: ast ASDL + symtable), provenance algebra, refusal path."""
 import ast
 
-from ..astq import is_name, returns_of
+from ..astq import _inner_function, conds, expand, facts_of, is_name, returns_of
 from ..callgraph import CallGraph
 from ..cfg import CFG
-from ..core import AnalysisError, norm, walk_local
+from ..core import AnalysisError, norm, order, walk_local
 from .. import pybinding
 from ..evc import Collector
 from ..xform.terms import ASDL
@@ -85,7 +85,7 @@ def run(repo, chk):
     # ---------------- R10.4
     tr_cls = next(n for n in repo.module("transform").tree.body if isinstance(n, ast.ClassDef) and any(is_name(b, "NodeTransformer") for b in n.bases))
     init = next(m for m in tr_cls.body if isinstance(m, ast.FunctionDef) and m.name == "__init__")
-    t = norm(init)
+    finit = facts_of(init)
     ext = [n for n in walk_local(init) if isinstance(n, ast.Assign) and norm(n.targets[0]) == "self.external"]
     ok = len(ext) == 1 and isinstance(ext[0].value, ast.BinOp)
     if ok:
@@ -96,24 +96,30 @@ def run(repo, chk):
         ok = norm(cur) == "evc.used" and sorted(terms) == ["evc.assigned", "evc.free"]
     chk.ob("R10.4", "transformer.__init__:external=used-assigned-free", ok, f"ptera/transform.py:{init.lineno}",
            "external names are the used names that are neither assigned nor closure variables" + ("" if ok else f" -- found {norm(ext[0].value) if ext else 'nothing'}"))
-    chk.ob("R10.4", "transformer.__init__:external-provenance", "for ext in self.external: self.provenance[ext] = 'external'" in t, f"ptera/transform.py:{init.lineno}",
+    marks = [n for t_, c_, n in finit.items if isinstance(n, ast.Assign) and t_.startswith("self.provenance[") and t_.endswith("] = 'external'")]
+    ok = len(marks) == 1 and finit.loops(marks[0]) == [f"for {norm(marks[0].targets[0].slice)} in self.external"] and not conds(marks[0], init)
+    chk.ob("R10.4", "transformer.__init__:external-provenance", ok, f"ptera/transform.py:{init.lineno}",
            "every external name gets provenance 'external'")
     if col.init is None:
         raise AnalysisError("collector has no __init__")
-    ti = norm(col.init)
-    chk.ob("R10.4", "collector.__init__:closure-provenance", "self.free = set(closure_vars)" in ti and "{v: 'closure' for v in closure_vars}" in ti, f"ptera/transform.py:{col.init.lineno}",
+    fci = facts_of(col.init)
+    cv = col.init.args.args[3].arg if len(col.init.args.args) > 3 else "closure_vars"
+    chk.ob("R10.4", "collector.__init__:closure-provenance", fci.has(f"self.free = set({cv})", exactly=[]) and fci.has(f"self.provenance = {{v: 'closure' for v in {cv}}}", exactly=[]), f"ptera/transform.py:{col.init.lineno}",
            "closure variables start as `free` with provenance 'closure'")
-    chk.ob("R10.4", "collector.__init__:inner-function-names-not-used", "self.used -= self.funcnames" in ti, f"ptera/transform.py:{col.init.lineno}",
+    sub_ = fci.find("self.used -= self.funcnames", exactly=[])
+    vis_ = [n for n in fci.find(f"self.visit({col.init.args.args[1].arg})", exactly=[]) if isinstance(n, ast.Call)]
+    chk.ob("R10.4", "collector.__init__:inner-function-names-not-used", len(sub_) == 1 and len(vis_) == 1 and order(vis_[0]) < order(sub_[0]), f"ptera/transform.py:{col.init.lineno}",
            "names of functions defined in the body are not treated as external reads")
     tr = repo.func("transform.transform")
-    tt = norm(tr.node)
-    chk.ob("R10.4", "transform:closure-names-from-co_freevars", "ExternalVariableCollector(tree, comments, fn.__code__.co_freevars)" in tt or
-           f"{col.cls.name}(tree, comments, fn.__code__.co_freevars)" in tt, tr.where, "closure names are taken from the code object (Python's own answer)")
-    chk.ob("R10.4", "transform:info-over-used-and-assigned", "all_vars = transformer.used | transformer.assigned" in tt and "for k in all_vars" in tt, tr.where,
+    ftr = facts_of(tr)
+    mk = [n for t_, c_, n in ftr.items if isinstance(n, ast.Call) and norm(n.func) == col.cls.name]
+    chk.ob("R10.4", "transform:closure-names-from-co_freevars", len(mk) == 1 and len(mk[0].args) == 3 and expand(mk[0].args[2], tr.node) == f"{tr.node.args.args[0].arg}.__code__.co_freevars", tr.where,
+           "closure names are taken from the code object (Python's own answer)")
+    chk.ob("R10.4", "transform:info-over-used-and-assigned", ftr.mentions("for k in transformer.used | transformer.assigned}") or ftr.mentions("for k in transformer.assigned | transformer.used}"), tr.where,
            "the variable table covers every used or assigned name")
     upd = [n for n in walk_local(tr.node) if isinstance(n, ast.Expr) and norm(n.value) == "info.update(_standard_info())"]
     built = [n for n in walk_local(tr.node) if isinstance(n, ast.Assign) and norm(n.targets[0]) == "info"]
-    chk.ob("R10.4", "transform:meta-table-merged-last", len(upd) == 1 and len(built) == 1 and upd[0].lineno > built[0].lineno, tr.where,
+    chk.ob("R10.4", "transform:meta-table-merged-last", len(upd) == 1 and len(built) == 1 and order(upd[0]) > order(built[0]), tr.where,
            "the meta-variable rows are merged after the program's own names (they cannot be shadowed)")
     for lab, h, expr in (("argument", "visit_arg", "node.arg"), ("body", "visit_Name", "node.id")):
         hh = col.handlers.get(h)
@@ -139,26 +145,35 @@ def run(repo, chk):
     chk.ob("R10.5", "probe.Probe._install_tooling:autotool-every-selector", any(isinstance(n, ast.For) and norm(n.iter) == "self._selectors"
            and any(isinstance(c, ast.Call) and is_name(c.func, "autotool") for c in ast.walk(n)) for n in ast.walk(it.node)), it.where, "every selector of the probe goes through autotool (hence verify)")
     vf = repo.func("selector.verify")
-    tv = norm(vf.node)
-    raises = [n for n in walk_local(vf.node) if isinstance(n, ast.Raise)]
-    ok = len(raises) == 1 and isinstance(raises[0]._parent, ast.If) and norm(raises[0]._parent.test) == "problems" and "problems = selector.problems()" in tv \
-        and norm(raises[0].exc.func) == "SelectorError"
+    fvf = facts_of(vf)
+    sp = vf.node.args.args[0].arg
+    raises = [(t_, c_) for t_, c_, n in fvf.items if isinstance(n, ast.Raise)]
+    ok = len(raises) == 1 and raises[0][0].startswith("raise SelectorError(") and f"{sp}.problems()" in raises[0][1] \
+        and all(f"not {sp}.problems()" in c_ for t_, c_, n in fvf.items if isinstance(n, ast.Return)) and bool(returns_of(vf.node))
     chk.ob("R10.5", "selector.verify:SelectorError-iff-problems", ok, vf.where, "verify raises SelectorError exactly when problems() is non-empty")
     pr = repo.func("selector.Call.problems")
-    tp = norm(pr.node)
-    for key, needle, what in (
-            ("wildcard-function", "if func is None: problems.append(", "a wildcard in function position"),
-            ("untooled-function", "elif info is None: problems.append(", "a function without a variable table (not instrumentable / unresolved)"),
-            ("missing-variable", "if not data: problems.append(", "a variable that occurs nowhere in the function"),
-            ("category-mismatch", "elif not check_element(x, x.name, data['annotation']): problems.append(", "a named variable whose category does not match"),
-            ("no-variable-with-category", "else: problems.append(f'No variable in", "a generic capture whose category matches no variable"),
-            ("unknown-meta-variable", "if x.name not in _valid_hashvars: problems.append(", "an undocumented #meta variable")):
-        chk.ob("R10.5", f"selector.Call.problems:{key}", needle in tp, pr.where, f"problems() reports {what}")
-    chk.ob("R10.5", "selector.Call.problems:recurses-into-children", "for x in self.children: problems.extend(x.problems())" in tp, pr.where, "nested call levels are verified as well")
+    fpr = facts_of(pr)
+    reports = [(t_, set(c_), n) for t_, c_, n in fpr.starting("problems.append(") if isinstance(n, ast.Call)]
+    fnv = (fpr.bound_to("self.element.name") or ["self.element.name"])[0]
+    for key, need, what in (
+            ("wildcard-function", [{f"{fnv} is None"}, {"self.element.name is None"}], "a wildcard in function position"),
+            ("untooled-function", [{"info is None"}, {f"getattr({fnv}, '__ptera_info__', None) is None"}, {"getattr(self.element.name, '__ptera_info__', None) is None"}],
+             "a function without a variable table (not instrumentable / unresolved)"),
+            ("missing-variable", [{"not data", "x.name is not None"}], "a variable that occurs nowhere in the function"),
+            ("category-mismatch", [{"not check_element(x, x.name, data['annotation'])", "data"}], "a named variable whose category does not match"),
+            ("no-variable-with-category", [{"x.name is None"}], "a generic capture whose category matches no variable"),
+            ("unknown-meta-variable", [{"x.name not in _valid_hashvars", "x.name.startswith('#')"}], "an undocumented #meta variable")):
+        chk.ob("R10.5", f"selector.Call.problems:{key}", any(alt <= c_ for alt in need for _, c_, _ in reports), pr.where, f"problems() reports {what}")
+    rec = fpr.find("problems.extend(x.problems())", exactly=[])
+    chk.ob("R10.5", "selector.Call.problems:recurses-into-children", len(rec) >= 1 and all(fpr.loops(n) == ["for x in self.children"] for n in rec), pr.where, "nested call levels are verified as well")
     tl = repo.func("overlay._tooler")
-    first = tl.node.body[0]
-    ok = isinstance(first, ast.If) and norm(first.test) == "not hasattr(fn, '__code__')" and isinstance(first.body[0], ast.Raise) and norm(first.body[0].exc.func) == "TypeError"
+    ftl = facts_of(tl)
+    fp0 = tl.node.args.args[0].arg
+    ok = any(isinstance(n, ast.Raise) and f"not hasattr({fp0}, '__code__')" in c_ for t_, c_, n in ftl.starting("raise TypeError(")) \
+        and all(f"hasattr({fp0}, '__code__')" in c_ for t_, c_, n in ftl.items if isinstance(n, (ast.With, ast.Assign, ast.Return)) or (isinstance(n, ast.Call) and t_.endswith(".push(captures)")))
     chk.ob("R10.5", "overlay._tooler:TypeError-for-non-code-objects", ok, tl.where, "an object without __code__ is refused with TypeError before anything is changed")
-    first = tr.node.body[1] if isinstance(tr.node.body[0], ast.Expr) else tr.node.body[0]
-    ok = isinstance(first, ast.If) and norm(first.test) == "not isinstance(fn, types.FunctionType)" and isinstance(first.body[0], ast.Raise) and norm(first.body[0].exc.func) == "TypeError"
+    fp0 = tr.node.args.args[0].arg
+    gate = f"isinstance({fp0}, types.FunctionType)"
+    ok = any(isinstance(n, ast.Raise) and f"not {gate}" in c_ for t_, c_, n in ftr.starting("raise TypeError(")) \
+        and all(gate in c_ for t_, c_, n in ftr.items if isinstance(n, (ast.Assign, ast.AugAssign, ast.Return, ast.With, ast.For)) and not _inner_function(n, tr.node))
     chk.ob("R10.5", "transform.transform:TypeError-for-non-functions", ok, tr.where, "transform refuses anything that is not a Python function with TypeError, first thing")
